@@ -74,6 +74,111 @@ theorem confined_partial (target rest : Bytes)
   rw [List.isPrefixOf_iff_prefix, hj, resolve_eq, resolve_eq, splitSlash_append, List.foldl_append]
   exact foldl_rstep_prefix _ hdd _ _ (List.prefix_refl _)
 
+/-! ### `resolve_inside` (the repaired server): sound, step-wise inside, and refusing only real escapes -/
+
+theorem foldl_istep_none (cs : List Bytes) : cs.foldl istep none = none := by
+  induction cs with
+  | nil => rfl
+  | cons c cs ih => simpa [List.foldl_cons, istep] using ih
+
+/-- what `resolve_inside` accepts is exactly where the kernel's resolution lands, from any base stack -/
+theorem foldl_istep_sound (cs : List Bytes) (s q base : List Bytes) (h : cs.foldl istep (some s) = some q) :
+    cs.foldl rstep (base ++ s) = base ++ q := by
+  induction cs generalizing s with
+  | nil => simp only [List.foldl_nil] at h ⊢; injection h with h; rw [h]
+  | cons c cs ih =>
+    simp only [List.foldl_cons] at h ⊢
+    by_cases h1 : (c.isEmpty || c == [dot]) = true
+    · have hi : istep (some s) c = some s := by simp [istep, h1]
+      have hr : rstep (base ++ s) c = base ++ s := by simp [rstep, h1]
+      rw [hi] at h; rw [hr]; exact ih s h
+    · by_cases h2 : (c == [dot, dot]) = true
+      · by_cases h3 : s.isEmpty = true
+        · have hi : istep (some s) c = none := by simp [istep, h1, h2, h3]
+          rw [hi, foldl_istep_none] at h; cases h
+        · have hi : istep (some s) c = some s.dropLast := by simp [istep, h1, h2, h3]
+          have hne : s ≠ [] := by intro e; rw [e] at h3; exact h3 rfl
+          have hr : rstep (base ++ s) c = base ++ s.dropLast := by simp [rstep, h1, h2, List.dropLast_append_of_ne_nil hne]
+          rw [hi] at h; rw [hr]; exact ih s.dropLast h
+      · have hi : istep (some s) c = some (s ++ [c]) := by simp [istep, h1, h2]
+        have hr : rstep (base ++ s) c = base ++ (s ++ [c]) := by simp [rstep, h1, h2, List.append_assoc]
+        rw [hi] at h; rw [hr]; exact ih (s ++ [c]) h
+
+/-- if the whole walk is accepted, so is every prefix of it (a refusal is final) -/
+theorem foldl_istep_prefix_some (cs₁ cs₂ : List Bytes) (s q : List Bytes) (h : (cs₁ ++ cs₂).foldl istep (some s) = some q) :
+    ∃ q₁, cs₁.foldl istep (some s) = some q₁ := by
+  rw [List.foldl_append] at h
+  cases h1 : cs₁.foldl istep (some s) with
+  | none => rw [h1, foldl_istep_none] at h; cases h
+  | some q₁ => exact ⟨q₁, rfl⟩
+
+theorem pjoin_rel (target rest : Bytes) (ht : target ≠ []) (hl : target.getLast? ≠ some slash) (hr : hasRoot rest = false) :
+    pjoin target rest = target ++ slash :: rest := by
+  unfold pjoin
+  have he : target.isEmpty = false := by cases target <;> simp_all
+  have hl' : (target.getLast? == some slash) = false := by simpa using hl
+  simp [hr, he, hl']
+
+/-- C19 `confined`: whatever `resolve_inside` accepts resolves (by the kernel's lexical rules) to the root followed by the
+    returned names — inside the root, **for every client-supplied remainder**, `..` included -/
+theorem resolveInside_sound (target rest : Bytes) (q : List Bytes)
+    (ht : target ≠ []) (hl : target.getLast? ≠ some slash) (hr : hasRoot rest = false)
+    (h : resolveInside rest = some q) :
+    resolve (pjoin target rest) = resolve target ++ q := by
+  rw [pjoin_rel target rest ht hl hr, resolve_eq, resolve_eq, splitSlash_append, List.foldl_append]
+  have := foldl_istep_sound (splitSlash rest) [] q ((splitSlash target).foldl rstep []) h
+  simpa using this
+
+/-- … and so does every intermediate step of the walk: with `create_dirs` no directory is ever created outside the root -/
+theorem resolveInside_steps_inside (target rest : Bytes) (q : List Bytes) (h : resolveInside rest = some q)
+    (cs₁ cs₂ : List Bytes) (hs : splitSlash rest = cs₁ ++ cs₂) :
+    resolve target <+: cs₁.foldl rstep (resolve target) := by
+  unfold resolveInside at h
+  rw [hs] at h
+  obtain ⟨q₁, h1⟩ := foldl_istep_prefix_some cs₁ cs₂ [] q h
+  have := foldl_istep_sound cs₁ [] q₁ (resolve target) h1
+  rw [List.append_nil] at this
+  rw [this]
+  exact List.prefix_append _ _
+
+/-- a refusal is never gratuitous: there is a prefix of the walk after which the kernel's resolution has left the root
+    (root not `/` itself) -/
+theorem foldl_istep_refuses_only_escapes (cs : List Bytes) (s base : List Bytes) (hb : base ≠ [])
+    (h : cs.foldl istep (some s) = none) :
+    ∃ cs₁ cs₂, cs = cs₁ ++ cs₂ ∧ ¬ (base <+: cs₁.foldl rstep (base ++ s)) := by
+  induction cs generalizing s with
+  | nil => simp at h
+  | cons c cs ih =>
+    simp only [List.foldl_cons] at h
+    by_cases h1 : (c.isEmpty || c == [dot]) = true
+    · have hi : istep (some s) c = some s := by simp [istep, h1]
+      rw [hi] at h
+      obtain ⟨a, b, e, hn⟩ := ih s h
+      refine ⟨c :: a, b, by rw [e]; rfl, ?_⟩
+      simpa [List.foldl_cons, rstep, h1] using hn
+    · by_cases h2 : (c == [dot, dot]) = true
+      · by_cases h3 : s.isEmpty = true
+        · -- the escape happens here
+          have hs : s = [] := by simpa using h3
+          refine ⟨[c], cs, rfl, ?_⟩
+          simp only [List.foldl_cons, List.foldl_nil, rstep, h1, h2, if_true, hs, List.append_nil]
+          intro hp
+          have hl := hp.length_le
+          simp [List.length_dropLast] at hl
+          have : base.length ≠ 0 := by intro e; exact hb (List.eq_nil_of_length_eq_zero e)
+          omega
+        · have hi : istep (some s) c = some s.dropLast := by simp [istep, h1, h2, h3]
+          rw [hi] at h
+          obtain ⟨a, b, e, hn⟩ := ih s.dropLast h
+          have hne : s ≠ [] := by intro e'; rw [e'] at h3; exact h3 rfl
+          refine ⟨c :: a, b, by rw [e]; rfl, ?_⟩
+          simpa [List.foldl_cons, rstep, h1, h2, List.dropLast_append_of_ne_nil hne] using hn
+      · have hi : istep (some s) c = some (s ++ [c]) := by simp [istep, h1, h2]
+        rw [hi] at h
+        obtain ⟨a, b, e, hn⟩ := ih (s ++ [c]) h
+        refine ⟨c :: a, b, by rw [e]; rfl, ?_⟩
+        simpa [List.foldl_cons, rstep, h1, h2, List.append_assoc] using hn
+
 /-- the stripped remainder of a rooted suffix never has a root again -/
 theorem trimLeftFuel_noRoot (fuel : Nat) (s : Bytes) (h : s.length < fuel) : hasRoot (trimLeftFuel fuel s) = false := by
   induction fuel generalizing s with
